@@ -6,6 +6,7 @@ package c18
 import (
 	"encoding/json"
 	"fmt"
+	"os"
 	"sort"
 	"strings"
 
@@ -19,11 +20,11 @@ func Check() *common.Check {
 	return &common.Check{
 		ID:    "C18",
 		Level: "model_checking",
-		Rule: "explicit-state search over message histories, each replayed on a fresh real lsp.Server over in-memory streams with the reference model (uri -> text, version; UTF-16 clamping position arithmetic) in lock-step. " +
-			"Space A: every history of length <= 3 (quick) / <= 4 (thorough) over the 51-message alphabet of checks/c18/alphabet.go, plus every history of length 4 (quick) / 5 (thorough, alphabet reduced to 24 document and request messages) that starts with a didOpen. " +
-			"Space B: for each of 6 small documents every incremental edit with start/end line in [-1, lines+1] and character in [-1, longest line+2] x 4 replacement texts; thorough adds every ordered pair of in-contract edits over a reduced coordinate set. " +
-			"distinct = distinct history (names of its messages / document+ranges); non-trivial = the history owes at least one response or holds an open, untainted document at its end (A), the edit is in contract (B); " +
-			"states = distinct (model document open/defined/text, server document open/text) pairs observed after a transition; transitions = messages delivered to a server",
+		Rule: fmt.Sprintf("explicit-state search over message histories, each replayed on a fresh real lsp.Server over in-memory streams with the reference model (uri -> text, version; UTF-16 clamping position arithmetic) in lock-step. "+
+			"Space A: every history of length <= 3 (quick) / <= 4 (thorough) over the %d-message alphabet of checks/c18/alphabet.go, plus every history of length 4 (quick) / 5 (thorough, tail alphabet reduced to %d document and request messages) that starts with a didOpen of the main document. "+
+			"Space B: for each of 6 small documents every incremental edit with start/end line in [-1, lines+1] and character in [-1, longest line+2] x 4 replacement texts; thorough adds every ordered pair of in-contract edits over a reduced coordinate set. "+
+			"distinct = distinct history (names of its messages / document+ranges); non-trivial = the history owes at least one response or holds an open, untainted document at its end (A), the edit is in contract (B); "+
+			"states = distinct (model document open/defined/text, server document open/text) pairs observed after a transition; transitions = messages delivered to a server; at most %d failing cases per signature and worker are reported in detail, counters failures:<sig> hold the totals", len(alphabet()), len(reducedSet), failCap),
 		Assume: []string{
 			"the server's own stream discipline is synchronous (no goroutines in pkg/lsp); the harness still takes every verdict after Run has returned and matches responses by id, snapshots between messages are used only to name the failing step",
 			"protocol rules taken as given: Position.character counts UTF-16 code units; character past the line end clamps to the line end; line past the last line clamps to the document end; negative coordinates, start after end and a character inside a surrogate pair are undefined (only liveness and response rules are checked for those); documents contain no '\\r'",
@@ -38,6 +39,17 @@ func Check() *common.Check {
 }
 
 func enumerate(e *common.Enum) {
+	// development aid: C18_SPACE=A or B runs one space only (recorded as a cap: exhaustive=false)
+	only := os.Getenv("C18_SPACE")
+	if only != "" {
+		e.Cap("C18_SPACE=" + only + " restricts the run to one space")
+	}
+	if only == "" || only == "B" {
+		defer enumerateB(e)
+	}
+	if only == "B" {
+		return
+	}
 	al := alphabet()
 	depth := 3
 	if e.Thorough() {
@@ -87,8 +99,6 @@ func enumerate(e *common.Enum) {
 		}
 		ext([]int{i})
 	}
-	// ---- Space B: edits
-	enumerateB(e)
 }
 
 var reducedSet = map[string]bool{
@@ -171,7 +181,14 @@ func enumerateB(e *common.Enum) {
 			}
 		}
 		for i1, e1 := range eds {
+			if !inContract(d, e1) {
+				continue // inside the surrogate pair
+			}
+			t1 := apply(d, e1)
 			for i2, e2 := range eds {
+				if !inContract(t1, e2) {
+					continue
+				}
 				key := fmt.Sprintf("B2:d%d:%d+%d", di, i1, i2)
 				e.Do(key, func(c *common.Ctx) { runB(c, d, e1, e2) })
 			}
